@@ -71,6 +71,10 @@ pub enum Action {
 	/// `len` bytes of noise from splitmix(nseed) decoded as type `ty`; if `keep` is set the first
 	/// `keep` bytes are those of the valid encoding of `v` (so decoding gets past the first fields)
 	Raw { v: Val, nseed: u64, len: u32, keep: u32, fill: u8, chunk: Chunking },
+	/// literal payload bytes (hex) decoded as type `v.ty` (`v.vseed` is unused): the entry point for
+	/// harvested messages. If `expect_ok`, the bytes were produced by the library itself and must
+	/// decode; whatever decodes must survive re-encoding (C13-2).
+	Bytes { v: Val, hex: String, expect_ok: bool, chunk: Chunking },
 	/// compound: unknown odd TLV (value `vlen` bytes) inserted, reader fails inside its value
 	IoErrInSkippedTlv { v: Val, typ: u64, vlen: u16, at: u16, kind: ErrKind, chunk: Chunking },
 }
@@ -90,6 +94,7 @@ impl Action {
 			Action::Inflate { .. } => "Inflate",
 			Action::BadByte { .. } => "BadByte",
 			Action::Raw { .. } => "Raw",
+			Action::Bytes { .. } => "Bytes",
 			Action::IoErrInSkippedTlv { .. } => "IoErrInSkippedTlv",
 		}
 	}
@@ -105,6 +110,7 @@ impl Action {
 			| Action::Inflate { v, .. }
 			| Action::BadByte { v, .. }
 			| Action::Raw { v, .. }
+			| Action::Bytes { v, .. }
 			| Action::IoErrInSkippedTlv { v, .. } => *v,
 		}
 	}
@@ -367,9 +373,9 @@ impl Env {
 		};
 		if allocguard::installed() {
 			self.out.bump("oracle:C13-3 allocation");
-			let cur = self.out.counters.get("max:alloc-peak-bytes").copied().unwrap_or(0);
-			if d.peak as u64 > cur {
-				self.out.counters.insert("max:alloc-peak-bytes".into(), d.peak as u64);
+			if d.peak > (1 << 20) {
+				self.out.bump("probe:decode-allocated-over-1MiB");
+				self.out.bump(&format!("alloc-over-1MiB-by-type:{}", N::NAME));
 			}
 			if d.peak > ALLOC_LIMIT || d.max_one > ALLOC_LIMIT {
 				self.violate("C13-3 allocation", k, format!(
@@ -550,6 +556,23 @@ impl Env {
 
 	fn exec<N: Node>(&mut self, a: &Action) -> bool {
 		let v = a.val();
+		if let Action::Bytes { hex, expect_ok, chunk, .. } = a {
+			let data = match simcore::unhex(hex) {
+				Some(d) => d,
+				None => return false,
+			};
+			self.cur_shape = data.len() as u64;
+			let d: Dec<N::M> = decode(&data, data.len(), *chunk, Cut::None, &[]);
+			let ok = matches!(d.res, Ok(Ok(_)));
+			let class = self.check::<N>("literal payload", v, None, "Bytes", 9, None, d, false, Expect::Any);
+			if *expect_ok {
+				self.out.bump("oracle:C13-1 roundtrip");
+				if !ok && class != 10 {
+					self.violate("C13-1 roundtrip", None, format!("{}: a payload produced by the library does not decode: {}", N::NAME, &hex[..hex.len().min(200)]));
+				}
+			}
+			return true;
+		}
 		let base: Base<N> = match self.base::<N>(v) {
 			Some(b) => b,
 			None => return false,
@@ -894,6 +917,7 @@ impl Env {
 				}
 				true
 			},
+			Action::Bytes { .. } => unreachable!("handled above"),
 			Action::IoErrInSkippedTlv { typ, vlen, at, kind: ek, chunk, .. } => {
 				if !matches!(N::TAIL, Tail::Tlv) || N::KNOWN.contains(typ) || typ % 2 == 0 || *vlen == 0 {
 					return false;
@@ -995,4 +1019,30 @@ pub fn type_info(ty: u16) -> (Tail, &'static [u64]) {
 		};
 	}
 	crate::for_each_node!(info)
+}
+
+/// BOLT message type number of each node (taken from the library's own `wire::Type` impls).
+pub fn wire_types() -> &'static Vec<u16> {
+	static T: std::sync::OnceLock<Vec<u16>> = std::sync::OnceLock::new();
+	T.get_or_init(|| {
+		use lightning::ln::wire::Type;
+		let mut out = Vec::new();
+		macro_rules! ids {
+			($($i:expr => $n:ident),*) => {
+				$(
+					let mut g = G::new(1, false);
+					out.push(<$n as Node>::gen(&mut g).map(|b| b.m.type_id()).unwrap_or(0xffff));
+				)*
+			};
+		}
+		crate::for_each_node!(ids);
+		out
+	})
+}
+
+/// Builds the action that checks one harvested wire payload (without the 2-byte type), or None if
+/// the type is not one of the simulated nodes.
+pub fn harvested(wire_type: u16, payload: &[u8], chunk: Chunking) -> Option<Action> {
+	let ty = wire_types().iter().position(|t| *t == wire_type)? as u16;
+	Some(Action::Bytes { v: Val { ty, vseed: 0, big: false }, hex: simcore::hex(payload), expect_ok: true, chunk })
 }
